@@ -319,4 +319,131 @@ example : ∃ x, den (elabSys ⟨1, 1, [0], 1,
   simp [den, denE, elabSys, formulaInForce, pickFormula, pickStep, elabExpr, elabRead, applyPT, servedPeriod,
     inputLookup, startOrdOf, storageKey, Decl.size, f2, castTo, ord, dby, dbm, isLeap, Int.max_def]
 
+
+/-! ## the extended language: DIVIDE reads and requests, parameters (`RuleSys.xelabSys`)
+
+Every theorem above about `Engine.den` / `request` is stated for an arbitrary node-level system
+and therefore covers `xelabSys` as it covers `elabSys`; the theorems below say what the new forms
+MEAN, that the extension changes nothing for the plain language, and that a declarative rule
+system whose variables form a DAG meets the hypothesis `VarRanked` of `C01_calculate_total`. -/
+
+/-- What a DIVIDE request is served by (`Simulation.calculate_divide`): it is accepted exactly for
+    a dated variable and a one-unit-long period not longer than the variable's definition period;
+    the variable is then computed for its definition-period-long period `c` around the start of
+    the requested period, and the denominator is the (positive) number of requested units `c` is
+    made of. -/
+theorem C01_divide_target (d : Decl) (w : Nat) (q : Period) (k : Node Period) (m : Nat)
+    (h : divideTarget d w q = .ok (k, m)) :
+    ∃ wv c n, d.vars[w]? = some wv ∧ ¬ (unitWeight wv.unit < unitWeight q.unit) ∧ q.size = 1 ∧
+      wv.unit ≠ .eternity ∧ q.unit ≠ .eternity ∧
+      divPeriod wv.unit q = .ok c ∧ divDenominator q.unit c = .ok n ∧ 0 < n ∧ m = n.toNat ∧
+      servedPeriod wv.unit c = .ok k.2 ∧ k.1 = w := divideTarget_spec d w q k m h
+
+/-- The DIVIDE option.  `floor(population(w, q, options=[DIVIDE]))` means the meaning of `w` at that
+    period, divided by the denominator, rounded down — element-wise. -/
+theorem C01_divide_is_share (x : XDecl) (armed : List Nat) (n w : Nat) (q : Period) (k : Node Period) (m : Nat)
+    (val : Val) (ht : divideTarget x.toDecl w q = .ok (k, m))
+    (hval : den (xelabSys x armed) n k.1 k.2 = some (.ok val)) :
+    denE (xelabSys x armed) n (elabDivide x.toDecl w (.ok q)) = some (.ok (val.map (fun a => a / (m : Int)))) ∧
+    0 < m ∧ ∀ a : Int, (m : Int) * (a / (m : Int)) ≤ a ∧ a < (m : Int) * (a / (m : Int)) + (m : Int) := by
+  obtain ⟨_, _, nn, _, _, _, _, _, _, _, hpos, hm, _, _⟩ := divideTarget_spec x.toDecl w q k m ht
+  have hm0 : 0 < m := by omega
+  refine ⟨?_, hm0, ?_⟩
+  · simp only [elabDivide, ht, denE, hval]
+    have : (xelabSys x armed).f1 = xf1 x.toDecl := rfl
+    rw [this, xf1_div x.toDecl m hm0]
+  · intro a
+    have hmz : (0 : Int) < (m : Int) := by omega
+    exact ⟨Int.mul_ediv_self_le (by omega), Int.lt_mul_ediv_self_add hmz⟩
+
+/-- A DIVIDE request the guards refuse raises (it never returns a number). -/
+theorem C01_divide_refused (x : XDecl) (armed : List Nat) (n w : Nat) (q : Period) (e : String)
+    (ht : divideTarget x.toDecl w q = .error e) :
+    denE (xelabSys x armed) n (elabDivide x.toDecl w (.ok q)) = some (.error .fault) := by
+  simp only [elabDivide, ht, denE]
+
+/-- Parameters.  The value `parameters(instant).<i>` is the dated value with the greatest start on
+    or before the instant; there is none exactly when every value starts later. -/
+theorem C01_param_in_force (tbl : List (Int × Int)) (o : Int) :
+    (∀ k, paramAt tbl o = some k → ∃ s, (s, k) ∈ tbl ∧ s ≤ o ∧ ∀ f ∈ tbl, f.1 ≤ o → f.1 ≤ s) ∧
+    (paramAt tbl o = none → ∀ f ∈ tbl, ¬ f.1 ≤ o) := paramAt_spec tbl o
+
+/-- A parameter read in a formula is that value, broadcast to the entity's size; an unknown
+    parameter, or one that has no value yet at the instant, raises. -/
+theorem C01_param_read (x : XDecl) (armed : List Nat) (n ent i : Nat) (q : Period) :
+    (∀ k, paramValue x i (.ok q) = some k →
+      denE (xelabSys x armed) n (elabParam x ent i (.ok q)) = some (.ok (List.replicate (x.size ent) k))) ∧
+    (paramValue x i (.ok q) = none →
+      denE (xelabSys x armed) n (elabParam x ent i (.ok q)) = some (.error .fault)) := by
+  constructor
+  · intro k h; simp only [elabParam, h, denE]
+  · intro h; simp only [elabParam, h, denE]
+
+/-- … read at the START of the period handed to `parameters(…)` -/
+theorem C01_param_at_period_start (x : XDecl) (i : Nat) (q : Period) (tbl : List (Int × Int))
+    (hi : x.params[i]? = some tbl) (hq : q.unit ≠ .eternity) :
+    paramValue x i (.ok q) = paramAt tbl (ord q.start) := by
+  simp [paramValue, hi, hq]
+
+/-- The extension is conservative: an expression of the plain language elaborates under `xelabSys`
+    exactly as it does under `elabSys`. -/
+theorem C01_extension_conservative (x : XDecl) (p : Period) (e : DExpr) (ent : Nat) (h : Plain e) :
+    xelabExpr x ent p e = elabExpr x.toDecl ent p e := xelabExpr_plain x p e ent h
+
+/-- "For all acyclic rule systems": a declarative system in which every formula of a variable reads
+    only variables of strictly lower rank — through plain reads, ADD or DIVIDE reads, projections
+    and aggregations, at whatever periods — meets `VarRanked`; when its eternal variables are
+    well-formed (`XEternalWF`: no end date, undated formulas, reads at fixed periods or of other
+    eternal variables; vacuous without eternal variable) it meets `SlotCoherent` too, so that EVERY
+    request has a meaning and returns it, from every reachable state (no hypothesis left on the
+    node-level system). -/
+theorem C01_acyclic_declaration_total (x : XDecl) (armed : List Nat) (rk : Nat → Nat) (hr : DeclRanked x rk)
+    (hwf : XEternalWF x) (hmsl : 1 ≤ x.msl)
+    (s : St Period) (hc : Cons (xelabSys x armed) s.cache) (hs : s.stack = []) (hi : s.inval = [])
+    (v : Nat) (p : Period) :
+    ∃ r s', den (xelabSys x armed) (rk v + 1) v p = some r ∧
+      request (xelabSys x armed) (rk v + 1) s (v, p) = some (r, false, s') ∧
+      Cons (xelabSys x armed) s'.cache ∧ s'.stack = [] ∧ s'.inval = [] :=
+  C01_calculate_total (xelabSys x armed) (xelabSys_slotCoherent x armed hwf) rk
+    (xelabSys_varRanked x armed rk hr) hmsl s hc hs hi v p
+
+/-- the extended systems meet the coherence hypothesis of every theorem above -/
+theorem C01_xelab_slotCoherent (x : XDecl) (armed : List Nat) (hwf : XEternalWF x) :
+    SlotCoherent (xelabSys x armed) := xelabSys_slotCoherent x armed hwf
+
+/-- a yearly variable with inputs 25 and −25, a parameter worth 3 from 2017 and 5 from 2018-02-01,
+    a monthly variable `floor(v0 / 12) + p`: at 2018-03 the share is ⌊25/12⌋ = 2 and ⌊−25/12⌋ = −3,
+    the parameter 5 -/
+def divDemo : XDecl :=
+  { nP := 2, nG := 1, mem := [0, 0], msl := 1,
+    vars := [⟨0, .float, .year, 0, false, none, false, []⟩,
+             ⟨0, .int, .month, 0, false, none, false,
+               [(1, .op2 0 (.op1 OP_DIVIDE (.var 0 .same false)) (.op1 OP_PARAM (.var 0 .same false)))]⟩],
+    inputs := [(0, ⟨.year, ⟨2018, 1, 1⟩, 1⟩, [25, -25])],
+    params := [[(736330, 3), (736726, 5)]] }
+
+example : divideTarget divDemo.toDecl 0 ⟨.month, ⟨2018, 3, 1⟩, 1⟩ = .ok ((0, ⟨.year, ⟨2018, 1, 1⟩, 1⟩), 12) := by
+  decide +kernel
+
+example : paramValue divDemo 0 (.ok ⟨.month, ⟨2018, 3, 1⟩, 1⟩) = some 5 ∧
+    paramValue divDemo 0 (.ok ⟨.month, ⟨2018, 1, 1⟩, 1⟩) = some 3 ∧
+    paramValue divDemo 0 (.ok ⟨.month, ⟨2016, 1, 1⟩, 1⟩) = none := by decide +kernel
+
+example : XEternalWF divDemo := by
+  intro v vv hv hu
+  match v, hv with
+  | 0, hv => simp [divDemo] at hv; subst hv; cases hu
+  | 1, hv => simp [divDemo] at hv; subst hv; cases hu
+  | n+2, hv => simp [divDemo] at hv
+
+example : DeclRanked divDemo (fun v => v) := by
+  intro v vv hv f hf w hw
+  match v, hv with
+  | 0, hv => simp [divDemo] at hv; subst hv; simp at hf
+  | 1, hv =>
+    simp [divDemo] at hv; subst hv
+    simp at hf; subst hf
+    simp [dreads, OP_DIVIDE, OP_PARAM] at hw; subst hw; show 0 < 1; omega
+  | n+2, hv => simp [divDemo] at hv
+
 end OFCore
